@@ -148,6 +148,12 @@ pub fn gen(rng: &mut Rng, n: usize, out: &mut Vec<String>) {
                 }
                 continue;
             }
+            if rng.chance(1, 14) {
+                if let Some(l) = crank_case(&s, rng) {
+                    out.push(l);
+                }
+                continue;
+            }
             if rng.chance(1, 7) {
                 if let Some(l) = liq_case(&s, rng, stranger) {
                     out.push(l);
@@ -616,6 +622,96 @@ fn emis_case(s: &Scen, rng: &mut Rng, stranger: Pubkey) -> Option<String> {
                 head, slots_line(&a1, &keys), B::from_bank(&bank1).line(), bank1.last_update, w.token_amount(&dest),
                 g1.deleverage_withdraw_window_cache.daily_limit, g1.deleverage_withdraw_window_cache.withdrawn_today, g1.deleverage_withdraw_window_cache.last_daily_reset_timestamp
             ))
+        }
+        Err(ExecErr::Custom(code)) if code >= 6000 => Some(format!("{} => err {}", head, code)),
+        Err(ExecErr::Panic) => Some(format!("{} => panic", head)),
+        Err(_) => None,
+    }
+}
+
+/// `wd.accrue` / `wd.collect`: the REAL permissionless cranks lending_pool_accrue_bank_interest and lending_pool_collect_bank_fees
+/// through dispatch: after any lapse of time, on a bank of the group or of a foreign group, in a paused group, with the liquidity
+/// vault full / partly drained / empty, fee buckets as the warm-up left them or pumped up, the right fee ATA or another account.
+///   wd.accrue  `=> ok <bank 16> last_update`
+///   wd.collect amount field = 1 (right fee ATA) / 0; `=> ok <bank 16> last_update <to insurance> <to fee vault> <to program ATA>`
+fn crank_case(s: &Scen, rng: &mut Rng) -> Option<String> {
+    let b = rng.below(s.banks.len() as u64) as usize;
+    let h = s.banks[b];
+    let mut w = s.w.clone();
+    let collect = rng.chance(3, 5);
+    w.advance(*rng.pick(&[0i64, 1, 60, 3600, 86400, 2_592_000, 31_536_000]));
+    if collect {
+        // fees to collect: accrue for real first (mostly), pump a bucket now and then
+        if rng.chance(3, 4) { let _ = w.exec(&ix::accrue(&h)); }
+        if rng.chance(2, 3) {
+            let mut bk = w.bank(&h.bank);
+            for which in 0..3 {
+                if rng.chance(1, 2) { continue; }
+                let add = match rng.below(3) { 0 => rng.below(ONE as u64) as i128, 1 => (rng.below(1_000_000) as i128) * ONE + rng.below(ONE as u64) as i128, _ => (rng.below(u32::MAX as u64) as i128) * ONE };
+                match which {
+                    0 => bk.collected_insurance_fees_outstanding = I80F48::from_bits(bits(bk.collected_insurance_fees_outstanding) + add).into(),
+                    1 => bk.collected_group_fees_outstanding = I80F48::from_bits(bits(bk.collected_group_fees_outstanding) + add).into(),
+                    _ => bk.collected_program_fees_outstanding = I80F48::from_bits(bits(bk.collected_program_fees_outstanding) + add).into(),
+                }
+            }
+            w.set_bank(&h.bank, &bk);
+        }
+        // the vault: as it is / a few tokens / nothing
+        match rng.below(5) {
+            0 => w.set_token_amount(&h.liquidity_vault, 0),
+            1 => w.set_token_amount(&h.liquidity_vault, rng.below(5)),
+            2 => { let v = w.token_amount(&h.liquidity_vault); w.set_token_amount(&h.liquidity_vault, v / (1 + rng.below(1000))); }
+            _ => {}
+        }
+    }
+    for _ in 0..(if rng.chance(2, 3) { 0 } else { 1 + rng.below(2) }) {
+        match rng.below(3) {
+            0 => {
+                let _ = w.exec(&ix::panic_pause(s.fee_admin));
+                let _ = w.exec(&ix::propagate_fee_state(s.group));
+            }
+            1 => {
+                let mut bk = w.bank(&h.bank);
+                bk.group = w.new_key();
+                w.set_bank(&h.bank, &bk);
+            }
+            _ => {
+                let mut bk = w.bank(&h.bank);
+                bk.config.operational_state = *rng.pick(&[BankOperationalState::Paused, BankOperationalState::ReduceOnly, BankOperationalState::KilledByBankruptcy]);
+                w.set_bank(&h.bank, &bk);
+            }
+        }
+    }
+    // (no margin account is named: the context carries the first user's, which the instruction never sees)
+    let acct_key = s.users[0].acct;
+    let signer = s.users[0].wallet;
+    if !collect {
+        let (head, _keys) = context_line(s, &w, "wd.accrue", &acct_key, &h, signer, h.liquidity_vault, 0, false);
+        return match w.exec(&ix::accrue(&h)) {
+            Ok(()) => {
+                let bank1 = w.bank(&h.bank);
+                Some(format!("{} => ok {} {}", head, B::from_bank(&bank1).line(), bank1.last_update))
+            }
+            Err(ExecErr::Custom(code)) if code >= 6000 => Some(format!("{} => err {}", head, code)),
+            Err(ExecErr::Panic) => Some(format!("{} => panic", head)),
+            Err(_) => None,
+        };
+    }
+    let right = w.ata(&s.fee_wallet, &h.mint);
+    if w.get(&right).is_none() { w.add_ata(s.fee_wallet, h.mint, 0); }
+    let ata_ok = rng.chance(7, 8);
+    let fee_ata = if ata_ok { right } else { w.add_token_account(h.mint, s.users[0].wallet, 0) };
+    let (head, _keys) = context_line(s, &w, "wd.collect", &acct_key, &h, signer, h.liquidity_vault, ata_ok as i128, false);
+    let (i0, f0, p0) = (w.token_amount(&h.insurance_vault), w.token_amount(&h.fee_vault), w.token_amount(&fee_ata));
+    let v0 = w.token_amount(&h.liquidity_vault);
+    // (a transfer-fee mint delivers less than it takes: what LEAVES the liquidity vault is compared, per destination, on plain mints only)
+    if w.transfer_fee_in_force(&h.mint) != (0, 0) { return None; }
+    match w.exec(&ix::collect_fees(&h, fee_ata)) {
+        Ok(()) => {
+            let bank1 = w.bank(&h.bank);
+            let (di, df, dp) = (w.token_amount(&h.insurance_vault) - i0, w.token_amount(&h.fee_vault) - f0, w.token_amount(&fee_ata) - p0);
+            if v0 - w.token_amount(&h.liquidity_vault) != di + df + dp { return Some(format!("{} => ok vault-delta-mismatch", head)); }
+            Some(format!("{} => ok {} {} {} {} {}", head, B::from_bank(&bank1).line(), bank1.last_update, di, df, dp))
         }
         Err(ExecErr::Custom(code)) if code >= 6000 => Some(format!("{} => err {}", head, code)),
         Err(ExecErr::Panic) => Some(format!("{} => panic", head)),
